@@ -219,7 +219,16 @@ def mpas_spec(m, rng):
 def build_grid(ux, src):
     """src: dict(kind='topology'|'mpas'|'file', …) → Grid"""
     if src["source"] == "topology":
-        return topology_grid(ux, src["mesh"])
+        g = topology_grid(ux, src["mesh"])
+        dv = src.get("derive")
+        if dv is not None and dv["kind"] == "subset":
+            # a sub-grid: the distance tables of the parent may already exist when it is cut out
+            if dv.get("parent_distances_first"):
+                g.edge_node_distances.values, g.edge_face_distances.values
+            g = g.isel(n_face=[int(i) for i in dv["faces"]])
+        elif dv is not None and dv["kind"] == "chunk":
+            g.chunk(n_node=int(dv["n"]), n_edge=int(dv["n"]), n_face=int(dv["n"]))
+        return g
     if src["source"] == "mpas":
         return ux.open_grid(mpas_dataset(src["mesh"]), use_dual=bool(src["dual"]))
     if src["source"] == "file":
@@ -292,8 +301,8 @@ def truth_of(src):
     these directions.  None: the grid derives the positions itself (then the grid's own report is used)."""
     t = dict(node=None, face=None)
     mesh = src.get("mesh") if src.get("source") == "topology" else None
-    if not isinstance(mesh, dict):
-        return t
+    if not isinstance(mesh, dict) or (src.get("derive") or {}).get("kind") == "subset":
+        return t  # a sub-grid renumbers its elements: judged against the positions it reports itself
     for k in ("node", "face"):
         if mesh.get(f"{k}_xyz") is not None:
             t[k] = ("xyz", np.asarray(mesh[f"{k}_xyz"], float).reshape(-1, 3))
@@ -452,7 +461,13 @@ def judge_distances(ctx, g, o, src, inp0, raw=None):
             inr = o.interior & (o.ef[:, 0] < o.n_node) & (o.ef[:, 1] < o.n_node)
             same = len(df) == len(asis) and inr.any() and np.allclose(np.asarray(df, float)[inr], asis[inr], rtol=0, atol=1e-6)
             left_zero = e < len(df) and e < len(o.ef) and bool(o.interior[e]) and float(df[e]) == 0.0
+            dfa, ora = np.asarray(df, float), np.asarray(oracle, float)
+            bad = o.interior & ~(np.abs(dfa - ora) <= 1e-6) if len(dfa) == len(ora) == o.n_edge else None
+            # every wrong entry is a NaN on an (almost) antipodal pair: the cosine sum rounded below -1
+            nan_antipodal = bad is not None and bad.any() and bool(np.all(np.isnan(dfa[bad]) & (ora[bad] > math.pi - 1e-6))) \
+                and "boundary_zero" not in out[1] and "length" not in out[1]
             sig = ("C16/edge_face_distances/indexes-node-coords" if (same and "is_geodesic" in out[1])
+                   else "C16/edge_face_distances/antipodal-centres/arccos-argument-rounds-below-minus-one/nan" if nan_antipodal
                    else "C16/edge_face_distances/two-face-edge-left-zero" if left_zero
                    else "C16/edge_face_distances/" + sig_clean(out[1]))
             ctx.hit("diagnosis:" + ("as-is node-indexed" if same else "other"))
@@ -460,9 +475,13 @@ def judge_distances(ctx, g, o, src, inp0, raw=None):
                      (f"edge_face_distances[{e}]={fl(df)[e] if e < len(df) else None} is not the arc between the centres of faces "
                       f"{o.ef[e].tolist() if e < len(o.ef) else None} (oracle {oracle[e] if e < len(oracle) else None})"
                       + ("; it equals the arc between NODES with those numbers (node_lon/node_lat indexed by face indices)" if same else "")
-                      + ("; a two-face edge was treated as a boundary edge" if left_zero and not same else "")),
+                      + ("; a two-face edge was treated as a boundary edge" if left_zero and not same else "")
+                      + ("; the two centres are antipodal and the rounded law-of-cosines sum is below -1, so arccos returns nan" if nan_antipodal else "")),
                      dict(inp0, op="edge_face_distances"), dict(edge_face_distances=fl(df)),
                      dict(oracle=oracle, asis_model=[None if x != x else x for x in asis.tolist()]), out[1].split(","))
+            if nan_antipodal:
+                ctx.hit("antipodal-nan: gradient on this grid not judged (same root cause)")
+                return None
     return df
 
 
@@ -585,7 +604,7 @@ def judge_ops(ctx, g, o, src, inp0, df, ux, cases=None):
                 ctx.hit("gradient:distance-table-degenerate(not compared with the model)")
                 continue
             r = d.ask("C16.grad.norm", enc_float(1e-12), o.enc_ef, enc_floats(fl(df)), nLead, n, dflat, oflat).split()
-            ctx.hit("normalize:zero-gradient-slices-not-judged", int(r[3]))
+            ctx.hit("normalize:zero-gradient-slices(judged: all-NaN or all-0)", int(r[3]))
             ctx.hit("normalize:leading-slices-judged", nLead - int(r[3]))
             if r[0] != "ok":
                 asis = np.array(common.Tok(d.ask("C16.grad.norm.asis", o.enc_ef, enc_floats(fl(df)), nLead, n, dflat)).floats())
@@ -734,18 +753,125 @@ def forms_src(m, rng):
     return draw_history(rng, src, edge_coords)
 
 
+def _lonlat(v):
+    v = np.asarray(v, float)
+    v = v / np.linalg.norm(v)
+    return float(np.degrees(np.arctan2(v[1], v[0]))), float(np.degrees(np.arcsin(np.clip(v[2], -1, 1))))
+
+
+def _np_lawcos(lon_a, lat_a, lon_b, lat_b):
+    """the cosine sum as NumPy rounds it (generator side only: used to FIND pairs whose sum rounds
+    outside [-1, 1]; never a verdict)"""
+    la, pa, lb, pb = (np.deg2rad(np.float64(x)) for x in (lon_a, lat_a, lon_b, lat_b))
+    return np.sin(pa) * np.sin(pb) + np.cos(pa) * np.cos(pb) * np.cos(la - lb)
+
+
+def coarse_srcs(rng, n_random, n_adversarial):
+    """large arcs between SUPPLIED face centres: exactly 90° / 180°, obtuse, almost antipodal and
+    antipodal (exact axis positions and random rotations; lon/lat or Cartesian of any radius), on a
+    two-cell grid and a three-cell band; plus antipodal pairs searched so that the law-of-cosines sum
+    rounds below -1."""
+    two, band = tiny()[0], meshes.patch(3, 1)
+    out = []
+
+    def src_of(m, centres, tag, form):
+        src = topo_src(m, rng, False)
+        mesh = src["mesh"]
+        if form == "ll":
+            ll = [c if isinstance(c, tuple) else _lonlat(c) for c in centres]
+            mesh["face_lon"], mesh["face_lat"] = [float(a) for a, _ in ll], [float(b) for _, b in ll]
+        else:
+            r = radii(rng, rng.choice(["unit", "R", "mixed"]), len(centres))
+            d = np.array([meshes._ll(*c) if isinstance(c, tuple) else np.asarray(c, float) / np.linalg.norm(c) for c in centres])
+            mesh["face_xyz"] = (d * r[:, None]).tolist()
+        src["tag"] = f"coarse:{tag}:{form}"
+        return draw_history(rng, src)
+
+    # exact positions (the sums hit 0 and -1 exactly or within an ulp)
+    for a, b, tag in (((0.0, 0.0), (90.0, 0.0), "90"), ((0.0, 0.0), (180.0, 0.0), "180"), ((0.0, 0.0), (0.0, 90.0), "90-pole"),
+                      ((-90.0, 0.0), (90.0, 0.0), "180"), ((10.0, 45.0), (-170.0, -45.0), "180"), ((0.0, 90.0), (0.0, -90.0), "180-poles"),
+                      ((0.0, 0.0), (135.0, 0.0), "135"), ((30.0, 0.0), (-150.0 + 1e-6, 0.0), "almost-180")):
+        out.append(src_of(two, [a, b], "exact-" + tag, "ll"))
+    # random great circles
+    for _ in range(n_random):
+        R = meshes.random_rotation(rng)
+        ang = rng.choice([90.0, 90.0, 120.0, 150.0, 179.0, 179.9999, 180.0, 180.0])
+        t = math.radians(ang)
+        form = rng.choice(["ll", "xyz"])
+        if rng.random() < 0.6:
+            cs = [R @ np.array([1.0, 0, 0]), R @ np.array([math.cos(t), math.sin(t), 0])]
+            out.append(src_of(two, cs, f"rot-{ang:g}", form))
+        else:
+            cs = [R @ np.array([math.cos(k * t), math.sin(k * t), 0]) for k in range(3)]
+            out.append(src_of(band, cs, f"band-rot-{ang:g}", form))
+    # antipodal pairs whose cosine sum rounds below -1
+    found, tries = 0, 0
+    while found < n_adversarial and tries < 4000:
+        tries += 1
+        lon, lat = rng.uniform(-180, 180), rng.uniform(-89, 89)
+        lon2, lat2 = (lon - 180 if lon > 0 else lon + 180), -lat
+        if _np_lawcos(lon, lat, lon2, lat2) < -1.0:
+            found += 1
+            out.append(src_of(two, [(lon, lat), (lon2, lat2)], "antipodal-sum-below-minus-one", "ll"))
+    # coarse closed grids with their own (derived) centres: octahedron (node arcs exactly 90°), tetrahedron, 3-prism
+    for m in (meshes.bipyramid(4), tiny()[1], meshes.prism(3, lat=35.0), meshes.bipyramid(3)):
+        out.append(draw_history(rng, topo_src(m.rotated(meshes.random_rotation(rng)) if rng.random() < 0.7 else m, rng, False)))
+        out[-1]["tag"] = "coarse:" + out[-1]["tag"]
+    return out
+
+
+def derived_srcs(rng, n):
+    """the same operators on a sub-grid (Grid.isel over a random face set, with or without the
+    parent's distance tables already computed) and on a grid converted to dask arrays by chunk()"""
+    out = []
+    pool = [meshes.cube_sphere(2), meshes.patch(4, 3), meshes.hull(14, rng), meshes.dual_of(meshes.hull(12, rng)), meshes.icosa()]
+    for i in range(n):
+        m = rng.choice(pool)
+        if rng.random() < 0.5:
+            m = m.renumber(rng)
+        src = topo_src(m, rng, supply_centres=rng.random() < 0.4)
+        if i % 3 == 2:
+            src["derive"] = dict(kind="chunk", n=rng.choice([2, 3, 5, 1000]))
+            src["tag"] += "+chunk"
+        else:
+            k = rng.randint(2, max(2, m.n_face - 1))
+            src["derive"] = dict(kind="subset", faces=sorted(rng.sample(range(m.n_face), k)),
+                                 parent_distances_first=rng.random() < 0.5)
+            src["tag"] += "+subset" + ("(parent tables first)" if src["derive"]["parent_distances_first"] else "")
+        out.append(draw_history(rng, src))
+    return out
+
+
 def regular_closed(rng):
     """closed meshes whose nodes all have the same valence (so that the MPAS dual is well formed)"""
     return [meshes.dual_of(meshes.hull(rng.choice([9, 12, 16, 20]), rng)), meshes.prism(rng.choice([3, 4, 5, 6])),
             meshes.cube_sphere(1), meshes.icosa(), meshes.antiprism(rng.choice([3, 4, 5])), meshes.bipyramid(4)]
 
 
+def selftest(ctx):
+    """every command name this harness can emit must be known to the driver (a missing command on
+    a failure path would otherwise surface as an infrastructure error exactly when a verdict is due)"""
+    import re
+    from pathlib import Path
+
+    known = set(ctx.driver.ask("C16.commands").split())
+    need = set(re.findall(r'"(C16\.[A-Za-z.]+)"', Path(__file__).read_text())) - {"C16.commands"}
+    need |= {f"C16.{a}.{k}{x}" for a in ("dist", "oracle") for k in ("node", "face") for x in ("", ".xyz")}
+    missing = sorted(need - known)
+    if missing:
+        raise RuntimeError("driver drv_c16 lacks commands the harness can emit: " + ", ".join(missing))
+    ctx.extra["driver_commands_checked"] = len(need)
+
+
 def run(ctx):
     rng = ctx.rng
+    selftest(ctx)
     ctx.rule = ("grids: 5 tiny + harness/meshes.zoo (closed and partial, triangulations with n_face>n_node, duals/patches with "
                 "n_face<n_node, all-boundary grids), built by Grid.from_topology with and without supplied face centres; again with the FORM of the supplied coordinates drawn at random "
                 "(nodes lon/lat | xyz unit / radius R / mixed radii | both; face centres absent | lon/lat | xyz any radius | both | un-normalised corner "
-                "mean; edge centres likewise; Cartesian-only nodes through Grid.from_dataset) and a random access history (coordinate reads, "
+                "mean; edge centres likewise; Cartesian-only nodes through Grid.from_dataset), coarse grids with SUPPLIED centres 90° / obtuse / "
+                "179.9999° / exactly 180° apart (exact axis positions, random rotations, and antipodal pairs searched so that the cosine sum "
+                "rounds below -1), sub-grids (Grid.isel, with/without the parent's tables computed first) and dask-chunked grids (Grid.chunk) and a random access history (coordinate reads, "
                 "normalize_cartesian_coordinates(), order of the two distance reads) before the tables are read; and again with SOURCE-SUPPLIED edge_node/edge_face "
                 "connectivity (own edge order, the two faces of an edge in either order, face 0 listed second, no distances); synthetic MPAS "
                 "files (own edge numbering, dvEdge/dcEdge supplied) read as primal and as dual mesh; the MPAS sample file. Per grid: both "
@@ -756,7 +882,8 @@ def run(ctx):
         "dirDist_scale_invariant); where the source supplies none, the grid's own face_lon/face_lat (their correctness is C04's subject)",
         "float clauses: |impl - oracle| <= 64 eps / max(sin d, sqrt eps) + 64 eps (1+d)  (conditioning of arccos), eps of the coordinate dtype; "
         "normalisation 1e-12; IEEE rounding and libm are modelled, not verified",
-        "element dimension is the last one; zero-gradient slices (0/0) are not judged for unit norm",
+        "element dimension is the last one; a zero-gradient slice (0/0) must come back all-NaN (the model's IEEE value) or all-zero, "
+        "nothing else; it is not judged for unit norm",
         "source-supplied tables are judged for being carried over unchanged under the mesh's own node/face roles, not for their unit",
     ]
     # minimised past failures / regression witnesses of the Lean as-is counterexamples first
@@ -777,6 +904,13 @@ def run(ctx):
         fs += meshes.zoo(rng, big=False)
     for m in fs:
         judge(ctx, forms_src(m, rng))
+    # coarse grids: arcs of exactly 90° / 180°, obtuse and antipodal centres
+    for src in coarse_srcs(rng, ctx.n(10, 60), ctx.n(3, 12)):
+        judge(ctx, src)
+    # sub-grids and dask-chunked grids
+    for src in derived_srcs(rng, ctx.n(9, 45)):
+        ctx.hit("derived:" + src["derive"]["kind"])
+        judge(ctx, src)
     # source-supplied edge tables (own edge order, faces of an edge in either order), no distances
     es = tiny() + meshes.zoo(rng, big=False)
     for rep_ in range(ctx.n(0, 4)):
@@ -822,6 +956,7 @@ def rerun(ctx, inp):
     """re-run exactly one stored input (a distance-table case or one operator case)"""
     import uxarray as ux
 
+    selftest(ctx)
     src = inp["grid"]
     try:
         g = build_grid(ux, src)
